@@ -115,20 +115,20 @@ fn splitmix(x: &mut u64) -> u64 {
 }
 
 /// Cooperative receiver (`srtla_rec`-lite).
-struct Receiver {
-    group: Option<[u8; 256]>,
-    members: BTreeSet<u8>,
+pub struct Receiver {
+    pub group: Option<[u8; 256]>,
+    pub members: BTreeSet<u8>,
     /// last time a datagram from each link reached the receiver (members silent for 10 s are dropped, as srtla_rec does)
     last_from: Vec<u64>,
     per_link_unacked: Vec<Vec<u32>>,
-    highest_seq: Option<u32>,
-    last_data_link: Option<u8>,
+    pub highest_seq: Option<u32>,
+    pub last_data_link: Option<u8>,
     answer_err: bool,
     gen_counter: u8,
 }
 
 impl Receiver {
-    fn new(n: usize) -> Self {
+    pub fn new(n: usize) -> Self {
         Receiver {
             group: None,
             members: BTreeSet::new(),
@@ -142,13 +142,13 @@ impl Receiver {
     }
 
     /// Drop members that have been silent for 10 s.
-    fn expire(&mut self, now: u64) {
+    pub fn expire(&mut self, now: u64) {
         let lf = &self.last_from;
         self.members.retain(|m| now.saturating_sub(lf[*m as usize]) < 10_000);
     }
 
     /// Process one datagram from uplink `l` at time `now`; returns replies for that link.
-    fn on_datagram(&mut self, l: u8, b: &[u8], now: u64) -> Vec<Vec<u8>> {
+    pub fn on_datagram(&mut self, l: u8, b: &[u8], now: u64) -> Vec<Vec<u8>> {
         self.expire(now);
         self.last_from[l as usize] = now;
         let mut out = Vec::new();
@@ -204,7 +204,7 @@ impl Receiver {
         out
     }
 
-    fn forget(&mut self, err: bool) {
+    pub fn forget(&mut self, err: bool) {
         self.group = None;
         self.members.clear();
         self.answer_err = err;
